@@ -1,4 +1,5 @@
 import NfcVerif.Props.C01T34
+import NfcVerif.Lemmas.HistC02T34
 /-!
 # C02, part t34 - an interrupted NDEF write never leaves a corrupt message (Type 3, Type 4)
 
@@ -7,7 +8,7 @@ A power cut after the k-th state-changing command = the tag executed `cmds.take 
 area, or the new message.
 -/
 namespace NfcVerif.C02T34
-open NfcVerif NfcVerif.T34
+open NfcVerif NfcVerif.T34 NfcVerif.Hist
 
 /-- Type 3: for every well-formed layout, every old and new message and every cut point the fresh reader
 sees the old message (k = 0), `WriteF = 0Fh` i.e. explicitly not readable (0 < k < n), or the new message. -/
@@ -49,5 +50,107 @@ def exInfo : T4.Info := ⟨59, 52, 18, true, true, 2, [0xE1, 4]⟩
 example : ∃ r, T4.see .repaired { C01T34.exCard with
       file := T4.applyU C01T34.exCard.file ((T4.planWrite .repaired exInfo [5]).take 1) } = .ok r ∧ Outcome [7, 8] [5] r :=
   t4_cut_safe _ _ _ _ C01T34.exWF4 (by decide) (by decide) ⟨18, true, true, [7, 8]⟩ (by decide) 1 (by decide)
+
+/-! ## Histories: faults of both kinds, re-assignment through the same object
+
+`Hist.t3History` / `Hist.t4History` (`Model/HistC01.lean`): attempts `(message, fault?)` through ONE tag object; a
+`Fault ⟨k, late⟩` makes state-changing command `k` of the attempt fail - not executed (`late = false`: lost, refused,
+or the power cut after `k` commands) or executed without an answer reaching the reader (`late = true`).  The Type 3
+writer re-reads the attribute block at every attempt, the Type 4 writer uses the capability values of the activation. -/
+
+/-- **Type 3, retry after any history with any further fault.**  After ANY history through one object the application
+assigns `d2`; this attempt is disturbed at any Write command in either way, or not at all.  Afterwards the memory is
+what it was before the attempt, or block 0 carries `WriteF ≠ 0` (a fresh reader reports the area as not readable), or
+a fresh reader sees exactly `d2`. -/
+theorem t3_retry_cut_safe (m : Bytes) (a : T3.Attr) (wf : T3.WF m a) (seen : Seen)
+    (hseen : T3.see m = .ok (some seen)) (hs : List (Bytes × Option Fault)) (d2 : Bytes) (f : Option Fault) :
+    (t3Attempt seen (t3History seen m hs).1 d2 f).mem = (t3History seen m hs).1
+    ∨ (∃ s, T3.see (t3Attempt seen (t3History seen m hs).1 d2 f).mem = .ok (some s) ∧ s.readable = false)
+    ∨ ((d2.length : Int) ≤ seen.capacity ∧
+        T3.see (t3Attempt seen (t3History seen m hs).1 d2 f).mem = .ok (some ⟨seen.capacity, true, true, d2⟩)) := by
+  have hs0 : seen.capacity = (a.nmaxb * 16 : Nat) := by
+    unfold T3.see at hseen
+    rw [T3.readNdef_old m a wf] at hseen
+    simp only [Py.bind_ok, Option.map, Except.ok.injEq, Option.some.injEq] at hseen
+    subst hseen; rfl
+  have hi := t3History_inv seen a hs0 hs m ⟨a, wf, rfl, rfl, rfl, rfl, rfl⟩
+  rcases t3Attempt_view seen a hs0 _ d2 f hi with h | h | ⟨h1, h2⟩
+  · exact Or.inl h
+  · exact Or.inr (Or.inl h)
+  · exact Or.inr (Or.inr ⟨h1, by rw [hs0]; exact h2⟩)
+
+/-- **Type 3, cut safety over histories (full).**  For every well-formed layout and EVERY history of assignments
+through one object - any number of attempts, any messages, each completed or aborted at any Write command, executed
+by the tag or not - a fresh reader sees what the activation saw (nothing was executed), or a not-readable area
+(`WriteF = 0Fh`), or the COMPLETE message of one of the attempts with the same capacity. -/
+theorem t3_history_cut_safe (m : Bytes) (a : T3.Attr) (wf : T3.WF m a) (seen : Seen)
+    (hseen : T3.see m = .ok (some seen)) (hs : List (Bytes × Option Fault)) :
+    ∃ s, T3.see (t3History seen m hs).1 = .ok (some s) ∧
+      (s = seen ∨ s.readable = false ∨
+        (s.data ∈ sentMsgs34 seen.capacity hs ∧ s.readable = true ∧ s.capacity = seen.capacity)) := by
+  have hs0 : seen.capacity = (a.nmaxb * 16 : Nat) := by
+    unfold T3.see at hseen
+    rw [T3.readNdef_old m a wf] at hseen
+    simp only [Py.bind_ok, Option.map, Except.ok.injEq, Option.some.injEq] at hseen
+    subst hseen; rfl
+  rcases t3History_view seen a hs0 hs m ⟨a, wf, rfl, rfl, rfl, rfl, rfl⟩ with h | ⟨s, h1, h2⟩
+  · exact ⟨seen, by rw [h]; exact hseen, Or.inl rfl⟩
+  · exact ⟨s, h1, Or.inr h2⟩
+
+/-- **Type 4, retry after any history with any further fault** (`NLEN size ≤ MLc`, both code variants): the file is
+what it was before the attempt, or a fresh reader sees an empty message (`NLEN = 0`), or exactly `d2`. -/
+theorem t4_retry_cut_safe (v : T4.Variant) (c : T4.Card) (i : T4.Info) (wf : T4.WF v c i) (hmlc : i.nlenSize ≤ i.maxLc)
+    (nd : T4.Ndef) (hnd : T4.readNdef v c = .ok (some nd)) (hs : List (Bytes × Option Fault)) (d2 : Bytes)
+    (f : Option Fault) :
+    (t4Attempt v c nd (t4History v c nd c.file hs).1 d2 f).file = (t4History v c nd c.file hs).1
+    ∨ T4.see v { c with file := (t4Attempt v c nd (t4History v c nd c.file hs).1 d2 f).file }
+        = .ok (some ⟨i.capacity, i.readable, true, []⟩)
+    ∨ ((d2.length : Int) ≤ i.capacity ∧
+        T4.see v { c with file := (t4Attempt v c nd (t4History v c nd c.file hs).1 d2 f).file }
+          = .ok (some ⟨i.capacity, i.readable, true, d2⟩)) := by
+  have hnd' : nd.info = i ∧ nd.seen.capacity = i.capacity := by
+    rw [T4.readNdef_spec v c i wf.disc wf.fid wf.lim (by have := wf.old; omega) (by have := wf.old; omega)] at hnd
+    cases hnd; exact ⟨rfl, rfl⟩
+  have hinv : ∀ (hs : List (Bytes × Option Fault)) g, T4Inv c i g → T4Inv c i (t4History v c nd g hs).1 := by
+    intro hs
+    induction hs with
+    | nil => intro g hg; exact hg
+    | cons x rest ih =>
+      intro g hg
+      obtain ⟨d, f'⟩ := x
+      simp only [t4History]
+      exact ih _ (t4Attempt_view v c i wf hmlc nd hnd' g d f' hg).1
+  exact (t4Attempt_view v c i wf hmlc nd hnd' _ d2 f (hinv hs c.file ⟨rfl, wf.old⟩)).2
+
+/-- **Type 4, cut safety over histories (full, `NLEN size ≤ MLc`).**  After EVERY history of assignments through one
+object - each completed or aborted at any UPDATE BINARY, executed or not - a fresh reader sees what the activation
+saw, an empty message, or the COMPLETE message of one of the attempts (same capacity and access flags). -/
+theorem t4_history_cut_safe (v : T4.Variant) (c : T4.Card) (i : T4.Info) (wf : T4.WF v c i) (hmlc : i.nlenSize ≤ i.maxLc)
+    (nd : T4.Ndef) (hnd : T4.readNdef v c = .ok (some nd)) (hs : List (Bytes × Option Fault)) :
+    T4.see v { c with file := (t4History v c nd c.file hs).1 } = T4.see v c
+    ∨ ∃ x, (x = [] ∨ x ∈ sentMsgs34 i.capacity hs) ∧
+        T4.see v { c with file := (t4History v c nd c.file hs).1 } = .ok (some ⟨i.capacity, i.readable, true, x⟩) := by
+  have hnd' : nd.info = i ∧ nd.seen.capacity = i.capacity := by
+    rw [T4.readNdef_spec v c i wf.disc wf.fid wf.lim (by have := wf.old; omega) (by have := wf.old; omega)] at hnd
+    cases hnd; exact ⟨rfl, rfl⟩
+  rcases t4History_view v c i wf hmlc nd hnd' hs c.file ⟨rfl, wf.old⟩ with h | h
+  · exact Or.inl (by rw [h])
+  · exact Or.inr h
+
+/-! Non-vacuity: on `C01T34.exM` (Type 3, old message `01..05`) the second of the four commands of a 20-octet write
+is executed but unacknowledged - not readable; the application then assigns `05 06`, the power is cut after its
+first command - still not readable; a third, undisturbed attempt is read back. -/
+example : (T3.see (t3History ⟨32, true, true, [1, 2, 3, 4, 5]⟩ C01T34.exM
+      [(List.replicate 20 9, some ⟨1, true⟩), ([5, 6], some ⟨1, false⟩)]).1).map (Option.map (·.readable)) = .ok (some false)
+    ∧ T3.see (t3History ⟨32, true, true, [1, 2, 3, 4, 5]⟩ C01T34.exM
+      [(List.replicate 20 9, some ⟨1, true⟩), ([5, 6], some ⟨1, false⟩), ([5, 6], none)]).1
+      = .ok (some ⟨32, true, true, [5, 6]⟩) := by
+  constructor <;> decide +kernel
+example : ∃ s, T3.see (t3History ⟨32, true, true, [1, 2, 3, 4, 5]⟩ C01T34.exM
+      [(List.replicate 20 9, some ⟨1, true⟩), ([5, 6], some ⟨1, false⟩)]).1 = .ok (some s) ∧
+      (s = ⟨32, true, true, [1, 2, 3, 4, 5]⟩ ∨ s.readable = false ∨
+        (s.data ∈ sentMsgs34 32 [(List.replicate 20 9, some ⟨1, true⟩), ([5, 6], some ⟨1, false⟩)] ∧ s.readable = true
+          ∧ s.capacity = 32)) :=
+  t3_history_cut_safe _ _ C01T34.exWF3 ⟨32, true, true, [1, 2, 3, 4, 5]⟩ (by decide) _
 
 end NfcVerif.C02T34
